@@ -173,38 +173,38 @@ func loadKnown(id string) map[string]finding {
 // ---- partial evidence -------------------------------------------------------
 
 type partial struct {
-	Property      string         `json:"property"`
-	Shard         int            `json:"shard"`
-	Evaluations   int            `json:"evaluations"`
-	EnumEvals     int            `json:"enum_evaluations"`
-	RapidEvals    int            `json:"rapid_evaluations"`
-	ReplayEvals   int            `json:"replay_evaluations"`
-	SubEvals      int            `json:"sub_evaluations"`
-	NonTrivial    int            `json:"nontrivial"`
-	Hashes        []string       `json:"hashes"`
-	Classes       map[string]int `json:"classes"`
-	RapidClasses  map[string]int `json:"rapid_classes"`
-	Samples       []any          `json:"samples"`
-	ExcludedKnown map[string]int `json:"excluded_known"`
-	Violations    int            `json:"violations"`
-	ReplayFile    string         `json:"replay_file,omitempty"`
-	FirstError    string         `json:"first_error,omitempty"`
-	Exhaustive    bool           `json:"exhaustive"`
-	DistinctCapped bool          `json:"distinct_capped,omitempty"`
-	EnumNote      string         `json:"enum_note,omitempty"`
-	Rule          string         `json:"rule"`
-	Assumptions   []string       `json:"assumptions,omitempty"`
-	FloorFailures []string       `json:"floor_failures,omitempty"`
-	WallS         float64        `json:"wall_s"`
-	Extra         map[string]any `json:"extra,omitempty"`
+	Property       string         `json:"property"`
+	Shard          int            `json:"shard"`
+	Evaluations    int            `json:"evaluations"`
+	EnumEvals      int            `json:"enum_evaluations"`
+	RapidEvals     int            `json:"rapid_evaluations"`
+	ReplayEvals    int            `json:"replay_evaluations"`
+	SubEvals       int            `json:"sub_evaluations"`
+	NonTrivial     int            `json:"nontrivial"`
+	Hashes         []string       `json:"hashes"`
+	Classes        map[string]int `json:"classes"`
+	RapidClasses   map[string]int `json:"rapid_classes"`
+	Samples        []any          `json:"samples"`
+	ExcludedKnown  map[string]int `json:"excluded_known"`
+	Violations     int            `json:"violations"`
+	ReplayFile     string         `json:"replay_file,omitempty"`
+	FirstError     string         `json:"first_error,omitempty"`
+	Exhaustive     bool           `json:"exhaustive"`
+	DistinctCapped bool           `json:"distinct_capped,omitempty"`
+	EnumNote       string         `json:"enum_note,omitempty"`
+	Rule           string         `json:"rule"`
+	Assumptions    []string       `json:"assumptions,omitempty"`
+	FloorFailures  []string       `json:"floor_failures,omitempty"`
+	WallS          float64        `json:"wall_s"`
+	Extra          map[string]any `json:"extra,omitempty"`
 }
 
 type collector struct {
-	mu       sync.Mutex
-	p        partial
-	hashes   map[uint64]struct{}
-	failed   bool
-	known    map[string]finding
+	mu         sync.Mutex
+	p          partial
+	hashes     map[uint64]struct{}
+	failed     bool
+	known      map[string]finding
 	inEnum     bool
 	firstKey   string
 	srcCount   map[string]int
@@ -257,7 +257,7 @@ func trackCurrent[C any](id string, c C) {
 		return
 	}
 	raw, _ := json.Marshal(c)
-	b, _ := json.Marshal(replayFile{Property: id, Key: "fatal-error", Error: "the process died while running this case", Case: raw})
+	b, _ := json.Marshal(replayFile{Property: id, Key: "fatal-error", Error: "the process died while running this case", Case: raw, Warm: warm.done})
 	os.WriteFile(filepath.Join(out, fmt.Sprintf("current.%d.json", envInt("VERIF_SHARD", 0))), b, 0o644)
 }
 
@@ -346,7 +346,117 @@ func applyGlobalAmbient() {
 	}
 }
 
+// ---- package warm-up -------------------------------------------------------------------
+//
+// Anything the library remembers at package level across calls (a cache keyed by type, a
+// memoised verdict) is state left behind by earlier calls. A user's process may, at any point
+// before the calls a property talks about, have handed the library zero values of its own
+// types: a zero Stack alias, a zero Condition alias, nil pointers to them, a zero value of a
+// type with a String method. None of that may change any later answer. So after the first
+// warmAfter cases of a process (which ran "cold") the harness does exactly that once, through
+// every entry point that inspects value types; every later case runs "warm". The flag is
+// stored in the replay file and honoured by the replay tier.
+var warm struct {
+	done  bool
+	cases int
+}
+
+const warmAfterDefault = 400
+
+func maybeWarmUp() {
+	warm.cases++
+	if warm.done || curProp == "C11" { // C11 sends the same traffic itself, per case and per family, between a query and its repetition
+		return
+	}
+	after := envInt("VERIF_WARM_AFTER", warmAfterDefault)
+	if warm.cases > after {
+		warmUpPackage()
+	}
+}
+
+func warmUpPackage() {
+	warm.done = true
+	foreignZeroTraffic("alias", "stringer", "operator", "other")
+}
+
+// foreignZeroTraffic hands zero values of the harness's own types to the library through every
+// entry point that inspects value types, on structures of its own (nothing the caller holds is
+// touched). Used as the process warm-up and, by C11, between a query and its repetition.
+func foreignZeroTraffic(families ...string) {
+	prev := stackage.VerifHook
+	stackage.VerifHook = nil
+	defer func() { stackage.VerifHook = prev }()
+	guard(func() {
+		var zs MyStack
+		var zss MyStackS
+		var zl MyStackLoud
+		var zc MyCond
+		var zcs MyCondS
+		var zcl MyCondLoud
+		var np *MyStack
+		var npc *MyCond
+		var ns *stackage.Stack
+		var zeros []any
+		for _, f := range families {
+			switch f {
+			case "alias":
+				zeros = append(zeros, zs, &zs, zss, &zss, zl, zc, &zc, zcs, zcl, np, npc, ns, stackage.Stack{}, stackage.Condition{})
+			case "stringer":
+				zeros = append(zeros, strLeaf{}, &strLeaf{}, (*strLeaf)(nil), intStringer(0))
+			case "operator":
+				zeros = append(zeros, userOp{}, sliceOp(nil), stackage.ComparisonOperator(0))
+			default:
+				zeros = append(zeros, PubStruct{}, privStruct{}, embStruct{}, ptrStruct{}, ptrOnlyStruct{}, ifaceStruct{}, [0]int{}, []int(nil), map[string]int(nil), (*int)(nil), (**int)(nil))
+			}
+		}
+		for _, kind := range stackKinds {
+			mk := func() stackage.Stack { return newStackOfKind(kind, 0) }
+			s := mk()
+			s.Push(zeros...)
+			_ = s.IsNesting()
+			_ = s.String()
+			_, _ = s.Unmarshal()
+			_ = s.IsEqual(mk().Push(zeros...))
+			for i := 0; i+1 < s.Len(); i++ {
+				_ = s.Less(i, i+1)
+			}
+			_, _ = s.Traverse(0, 0)
+			s.Defrag()
+			s.Reveal()
+			n := mk()
+			n.SetNoNesting(true)
+			n.Push(zeros...)
+			_ = n.IsNesting()
+			mk().Transfer(zs)
+			mk().Push("x").Transfer(&zs)
+		}
+		for _, z := range zeros {
+			stackage.ConvertStack(z)
+			stackage.ConvertCondition(z)
+			c := stackage.Cond(z, stackage.Eq, z)
+			c.SetKeyword(z)
+			c.SetExpression(z)
+			if op, ok := z.(stackage.Operator); ok {
+				c.SetOperator(op)
+			}
+			_ = c.String()
+			_ = c.Valid()
+			_ = c.IsNesting()
+			_ = c.IsEqual(stackage.Cond(z, stackage.Eq, z))
+			var nn stackage.Condition
+			nn.Init()
+			nn.SetNoNesting(true)
+			nn.SetExpression(z)
+			var r stackage.Stack
+			_ = r.Marshal(z)
+			_ = r.Marshal("AND", z)
+		}
+	})
+	resetPackageState()
+}
+
 func safeRun[C any](run func(C) (Stats, error), c C) (st Stats, err error) {
+	maybeWarmUp()
 	resetPackageState()
 	if globalAmbientFor(c) {
 		applyGlobalAmbient()
@@ -384,6 +494,7 @@ type replayFile struct {
 	Property string          `json:"property"`
 	Key      string          `json:"key"`
 	Error    string          `json:"error"`
+	Warm     bool            `json:"warm,omitempty"` // the package warm-up (warmUpPackage) had run before this case
 	Case     json.RawMessage `json:"case"`
 }
 
@@ -415,7 +526,7 @@ func (r *defRunner[C]) record(col *collector, c C, st Stats, err error) (fatal s
 			return ""
 		}
 		raw, _ := json.Marshal(c)
-		rf := replayFile{Property: r.d.ID, Key: v.Key, Error: v.Msg, Case: raw}
+		rf := replayFile{Property: r.d.ID, Key: v.Key, Error: v.Msg, Case: raw, Warm: warm.done}
 		b, _ := json.MarshalIndent(rf, "", " ")
 		path := r.replayPath()
 		os.WriteFile(path, b, 0o644)
@@ -634,6 +745,9 @@ func (r *defRunner[C]) replay(raw []byte) error {
 	dec := json.NewDecoder(strings.NewReader(string(body)))
 	if err := dec.Decode(&c); err != nil {
 		return fmt.Errorf("bad replay case: %v", err)
+	}
+	if rf.Warm {
+		warmUpPackage()
 	}
 	_, err := safeRun(r.d.Run, c)
 	return err
